@@ -78,3 +78,445 @@ Ltac trans_cases H :=
   destruct H as [x H|x H|x H|x H|k x H|x H|x H|x H|x H|x H|x H|x H|x H|x H|x H|x H|x H|x H|x H|x H];
   t_inv H.
 
+(* ---------------------------------------------------------------- every step makes progress *)
+
+Lemma tasks_weight_app a b : tasks_weight (a ++ b) = tasks_weight a + tasks_weight b.
+Proof. induction a as [|t a IH]; cbn [app tasks_weight fold_right]; [reflexivity|]. fold (tasks_weight (a++b)). fold (tasks_weight a). rewrite IH. lia. Qed.
+
+Ltac proj_simpl :=
+  cbn [hpc kpc spc apc qb tasks e_blocks e_tasks e_stop restart panicked gh
+       set_h set_k set_s set_a set_qb set_tasks set_eblocks set_etasks set_estop set_restart
+       set_panicked set_gh] in *.
+
+Lemma tasks_weight_cons t l : tasks_weight (t :: l) = task_weight t + tasks_weight l.
+Proof. reflexivity. Qed.
+Lemma req_weight_cons t l : req_weight (t :: l) = task_weight t + 2 + req_weight l.
+Proof. reflexivity. Qed.
+Lemma tasks_weight_nil : tasks_weight [] = 0. Proof. reflexivity. Qed.
+
+Ltac res_inv :=
+  repeat match goal with
+         | E : after_res ?p ?n = _ |- _ => unfold after_res in E; destruct p; try destruct n; inversion E; subst; clear E
+         end.
+
+Lemma trans_rank c s l s' : trans c s l s' -> rank s' < rank s.
+Proof.
+  intros H. trans_cases H; res_inv; unfold rank, push_task, repush_task; proj_simpl.
+  all: repeat match goal with p : phase |- _ => destruct p end.
+  all: repeat match goal with st : stage |- _ => destruct st end.
+  all: repeat match goal with E : _ = _ |- _ => rewrite E end.
+  all: try match goal with |- context [if ?b then _ else _] => destruct b end; proj_simpl.
+  all: repeat match goal with E : _ = _ |- _ => rewrite E end.
+  all: cbn [h_weight k_weight s_weight a_weight after_res fst snd].
+  all: rewrite ?tasks_weight_app, ?tasks_weight_cons, ?req_weight_cons, ?tasks_weight_nil.
+  all: unfold task_weight; cbn [t_kind t_more].
+  all: repeat match goal with E : _ = _ |- _ => rewrite E end.
+  all: try lia.
+Qed.
+
+(* ---------------------------------------------------------------- invariant *)
+
+Definition in_cs (k : kpc_t) : bool := match k with Kat _ Supd _ | Kat _ Sres _ => true | _ => false end.
+Definition k_import (k : kpc_t) : nat := match k with Kat PImp _ _ | Kpush _ => 1 | _ => 0 end.
+Definition k_holding (k : kpc_t) : nat := match k with Kat _ _ _ | Kpush _ | Kchk _ => 1 | _ => 0 end.
+Definition a_pending (a : apc_t) : nat := match a with Apush _ => 1 | Aidle => 0 end.
+Definition h_inblk (h : hpc_t) : nat := match h with Hblk => 1 | _ => 0 end.
+
+Record Inv (c : cfg) (s : state) : Prop := {
+  inv_cs : hpc s = Hwait <-> in_cs (kpc s) = true;
+  inv_hdone : hpc s = Hdone -> quit s = true;
+  inv_kdone : kpc s = Kdone -> quit s = true;
+  inv_sdb : spc s = Sdb \/ spc s = Sdone -> hpc s = Hdone /\ kpc s = Kdone;
+  inv_estop : e_stop s = true -> spc s = Sidle;
+  inv_kinit : kpc s = Kinit -> apc s = Aidle /\ tasks s = [];
+  inv_restart : kpc s <> Kinit -> restart s = [];
+  inv_rst_len : length (restart s) <= cap c;
+  inv_cap : length (tasks s) + k_import (kpc s) + a_pending (apc s) <= cap c;
+  inv_nodrop : n_drop (gh s) = 0;
+  inv_tasks : n_acc (gh s) = n_fin (gh s) + n_abort (gh s) + n_drop (gh s) + length (tasks s) + k_holding (kpc s);
+  inv_blocks : n_ann (gh s) = n_proc (gh s) + qb s + h_inblk (hpc s);
+  inv_noabort : spc s = Sidle -> n_abort (gh s) = 0;
+  inv_nil : nilfix c = true -> kpc s <> Kinit /\ panicked s = false
+}.
+
+Lemma inv_init c s : cfg_ok c -> initial c s -> Inv c s.
+Proof.
+  intros Hc (b & r & rs & st & -> & Hl). destruct (nilfix c) eqn:En.
+  all: constructor; cbn; try tauto; try congruence; try lia.
+  all: try (split; discriminate).
+  all: try (intros [H|H]; discriminate).
+  all: try discriminate.
+  intros _. split; [discriminate|reflexivity].
+Qed.
+
+Ltac nat_hyps :=
+  repeat match goal with
+         | E : (_ <? _) = true |- _ => apply Nat.ltb_lt in E
+         | E : (_ <? _) = false |- _ => apply Nat.ltb_ge in E
+         | E : (_ <=? _) = true |- _ => apply Nat.leb_le in E
+         | E : (_ <=? _) = false |- _ => apply Nat.leb_gt in E
+         | E : _ && _ = true |- _ => apply andb_true_iff in E; destruct E
+         end.
+
+Ltac use_refl :=
+  repeat match goal with
+         | H : ?a = ?a -> _ |- _ => specialize (H eq_refl)
+         | H : _ /\ _ |- _ => destruct H
+         end.
+
+Ltac inv_fin :=
+  unfold quit, busy_threshold in *; proj_simpl;
+  cbn [n_ann n_proc n_acc n_fin n_abort n_drop g_ann g_proc g_acc g_fin g_abort g_drop
+       in_cs k_import k_holding a_pending h_inblk length] in *;
+  repeat match goal with E : ?x = _ |- context [?x] => rewrite E end;
+  cbn [in_cs k_import k_holding a_pending h_inblk length] in *;
+  rewrite ?app_length; cbn [length];
+  try solve [intuition (try congruence; try discriminate; try lia)].
+
+Lemma inv_step c s l s' : cfg_ok c -> Inv c s -> trans c s l s' -> Inv c s'.
+Proof.
+  intros [Hc1 Hc2] HI H. destruct HI.
+  trans_cases H; res_inv; unfold push_task, repush_task in *; proj_simpl.
+  all: try match goal with |- context [if ?b then _ else _] => destruct b eqn:? end; proj_simpl.
+  all: nat_hyps; use_refl.
+  all: constructor; inv_fin.
+  all: try (destruct (spc s) eqn:?; cbn beta iota in *; inv_fin).
+  all: try (repeat match goal with E : ?x = _, H : context [?x] |- _ => rewrite E in H end; inv_fin).
+  all: try (repeat match goal with p : phase |- _ => destruct p end; inv_fin).
+Qed.
+
+Lemma reachable_inv c s : cfg_ok c -> reachable c s -> Inv c s.
+Proof.
+  intros Hc H. induction H as [s Hi | s s' Hr IH Hs].
+  - apply inv_init; assumption.
+  - apply step_trans in Hs. destruct Hs as [l Hs]. eapply inv_step; eassumption.
+Qed.
+
+(* ---------------------------------------------------------------- runs *)
+
+Inductive steps_n (c : cfg) : nat -> state -> state -> Prop :=
+| sn_refl : forall s, steps_n c 0 s s
+| sn_next : forall n s s' s'', In s' (step c s) -> steps_n c n s' s'' -> steps_n c (S n) s s''.
+
+Lemma step_rank c s s' : In s' (step c s) -> rank s' < rank s.
+Proof. intros H. apply step_trans in H. destruct H as [l H]. eapply trans_rank; eassumption. Qed.
+
+Lemma steps_n_bound c n s s' : steps_n c n s s' -> n + rank s' <= rank s.
+Proof.
+  induction 1 as [s | n s s1 s2 Hs Hn IH]; [lia|].
+  apply step_rank in Hs. lia.
+Qed.
+
+Lemma steps_has_n c s s' : steps c s s' -> exists n, steps_n c n s s'.
+Proof.
+  induction 1 as [s | s s1 s2 Hs Hn [n IH]].
+  - exists 0. constructor.
+  - exists (S n). econstructor; eassumption.
+Qed.
+
+Lemma steps_reachable c s s' : reachable c s -> steps c s s' -> reachable c s'.
+Proof.
+  intros Hr H. induction H as [s | s s1 s2 Hs Hn IH]; [assumption|].
+  apply IH. eapply reach_step; eassumption.
+Qed.
+
+(* every run can be extended to one that cannot move any more *)
+Lemma run_to_stuck c s : exists s', steps c s s' /\ stuck c s'.
+Proof.
+  remember (rank s) as r eqn:Er. revert s Er.
+  induction r as [r IH] using lt_wf_ind. intros s ->.
+  destruct (step c s) as [|s1 rest] eqn:E.
+  - exists s. split; [constructor | exact E].
+  - assert (Hin : In s1 (step c s)) by (rewrite E; left; reflexivity).
+    destruct (IH (rank s1) (step_rank _ _ _ Hin) s1 eq_refl) as (s' & Hs & Hst).
+    exists s'. split; [econstructor; eassumption | assumption].
+Qed.
+
+Lemma trans_can_step c s l s' : trans c s l s' -> can_step c s.
+Proof.
+  intros H E. assert (Hin : In s' (step c s)) by (apply step_trans; exists l; exact H).
+  unfold stuck in E. rewrite E in Hin. destruct Hin.
+Qed.
+
+(* ---------------------------------------------------------------- the running system *)
+
+Definition no_stop (s : state) : Prop := spc s = Sidle /\ e_stop s = false.
+
+Lemma no_stop_trans c s l s' : no_stop s -> trans c s l s' -> no_stop s'.
+Proof.
+  intros [H1 H2] H. unfold no_stop.
+  trans_cases H; res_inv; unfold push_task, repush_task; proj_simpl;
+    try match goal with |- context [if ?b then _ else _] => destruct b end; proj_simpl;
+    try (split; congruence).
+Qed.
+
+Lemma no_stop_steps c s s' : no_stop s -> steps c s s' -> no_stop s'.
+Proof.
+  intros Hn H. induction H as [s | s s1 s2 Hs Hr IH]; [assumption|].
+  apply IH. apply step_trans in Hs. destruct Hs as [l Hs]. eapply no_stop_trans; eassumption.
+Qed.
+
+Ltac enabled t := eapply trans_can_step; eapply t; unfold t_ann, t_achk_panic, t_achk_busy, t_achk_ok, t_apush, t_hquit, t_hb, t_hc, t_kinit, t_kquit,
+    t_ktake, t_kabort, t_kupd, t_kpush, t_kchk, t_jsusp, t_jres, t_sclose, t_swait, t_sdb, quit.
+
+Lemma no_deadlock_running c s : cfg_ok c -> reachable c s -> spc s = Sidle -> can_step c s \/ idle s.
+Proof.
+  intros Hc Hr Hs. pose proof (reachable_inv c s Hc Hr) as HI. destruct Hc as [Hc1 Hc2]. destruct HI.
+  unfold quit in *. rewrite Hs in *.
+  destruct (e_stop s) eqn:Est.
+  { left. enabled tr_sclose. rewrite Hs, Est. reflexivity. }
+  destruct (hpc s) eqn:Eh.
+  - (* Hsel *)
+    destruct (kpc s) as [| |p st n|n|n|] eqn:Ek.
+    + left. enabled tr_kinit. rewrite Ek. reflexivity.
+    + destruct (tasks s) as [|t rest] eqn:Et.
+      * destruct (qb s) as [|q] eqn:Eq.
+        -- destruct (apc s) as [|t] eqn:Ea.
+           ++ destruct (e_tasks s) as [|t rest] eqn:Ee.
+              ** destruct (e_blocks s) as [|b] eqn:Eb.
+                 --- right. unfold idle. rewrite Eh, Ek, Ea, Eq, Et, Eb, Ee, Est. tauto.
+                 --- left. enabled tr_ann. rewrite Hs, Eb, Eq.
+                     destruct (0 <? qcap c) eqn:El; [reflexivity|]. apply Nat.ltb_ge in El. lia.
+              ** left. enabled tr_achk_ok. rewrite Ea, Ee, Ek, Et. cbn. reflexivity.
+           ++ left. enabled tr_apush. rewrite Ea. reflexivity.
+        -- left. enabled tr_hb. rewrite Eh, Eq. reflexivity.
+      * left. enabled tr_ktake. rewrite Ek, Et. reflexivity.
+    + destruct st.
+      * left. enabled tr_jsusp. rewrite Eh, Ek. reflexivity.
+      * exfalso. destruct inv_cs0 as [_ H]. cbn in H. specialize (H eq_refl). discriminate.
+      * exfalso. destruct inv_cs0 as [_ H]. cbn in H. specialize (H eq_refl). discriminate.
+    + left. enabled tr_kpush. rewrite Ek. reflexivity.
+    + left. enabled tr_kchk. rewrite Ek, Hs. reflexivity.
+    + exfalso. specialize (inv_kdone0 eq_refl). discriminate.
+  - left. enabled tr_hc. rewrite Eh. reflexivity.
+  - (* Hwait: the worker is between the hand-shakes *)
+    destruct inv_cs0 as [H _]. specialize (H eq_refl).
+    destruct (kpc s) as [| |p st n|n|n|] eqn:Ek; try discriminate. destruct st; try discriminate.
+    + left. enabled tr_kupd. rewrite Ek. reflexivity.
+    + left. destruct (after_res p n) as [k fin] eqn:Ea. enabled tr_jres. rewrite Eh, Ek, Ea. reflexivity.
+  - exfalso. specialize (inv_hdone0 eq_refl). discriminate.
+Qed.
+
+(* every maximal run of the running system (no Stop) ends with both loops parked, every
+   announced block processed, every accepted task finished, none dropped, none aborted *)
+Definition all_done (s : state) : Prop :=
+  idle s /\ n_proc (gh s) = n_ann (gh s) /\ n_fin (gh s) = n_acc (gh s) /\
+  n_drop (gh s) = 0 /\ n_abort (gh s) = 0.
+
+Lemma tasks_finish c s :
+  cfg_ok c -> reachable c s -> no_stop s ->
+  (forall s', steps c s s' -> stuck c s' -> all_done s') /\
+  (forall n s', steps_n c n s s' -> n <= rank s) /\
+  (exists s', steps c s s' /\ stuck c s').
+Proof.
+  intros Hc Hr Hn. split; [|split].
+  - intros s' Hs Hst.
+    pose proof (steps_reachable _ _ _ Hr Hs) as Hr'.
+    pose proof (no_stop_steps _ _ _ Hn Hs) as [Hn1 Hn2].
+    destruct (no_deadlock_running c s' Hc Hr' Hn1) as [Hcan|Hid]; [contradiction|].
+    pose proof (reachable_inv c s' Hc Hr') as HI. destruct HI.
+    destruct Hid as (Hh & Hk & Ha & Hq & Ht & Hb & He & Hst').
+    specialize (inv_noabort0 Hn1).
+    rewrite Hh, Hk, Ht, Hq in *. cbn in inv_tasks0, inv_blocks0.
+    unfold all_done, idle. rewrite Hh, Hk, Ha, Hq, Ht, Hb, He, Hst'. repeat split; lia.
+  - intros n s' H. apply steps_n_bound in H. lia.
+  - apply run_to_stuck.
+Qed.
+
+Lemma requeue_never_dropped c s : cfg_ok c -> reachable c s -> n_drop (gh s) = 0.
+Proof. intros Hc Hr. destruct (reachable_inv c s Hc Hr). assumption. Qed.
+
+(* the point of the hand-shake: the handler is never inside its block transaction while the
+   worker is between suspend and resume *)
+Lemma handshake_exclusion c s : cfg_ok c -> reachable c s -> ~ (hpc s = Hblk /\ in_cs (kpc s) = true).
+Proof.
+  intros Hc Hr [H1 H2]. destruct (reachable_inv c s Hc Hr). apply inv_cs0 in H2. congruence.
+Qed.
+
+(* ---------------------------------------------------------------- Stop, repaired protocol *)
+
+Lemma stuck_after_stop_is_stopped c s :
+  cfg_ok c -> f1fix c = true -> reachable c s -> stop_requested s -> stuck c s -> stopped s.
+Proof.
+  intros Hc Hf Hr Hreq Hst. pose proof (reachable_inv c s Hc Hr) as HI. destruct HI.
+  unfold stop_requested, stopped in *. unfold quit in *.
+  assert (Hno : forall l s', ~ trans c s l s') by (intros l s' H; apply trans_can_step in H; contradiction).
+  destruct (spc s) eqn:Es; [contradiction| | |reflexivity].
+  - (* Swait *)
+    exfalso.
+    destruct (hpc s) eqn:Eh.
+    + eapply Hno. eapply tr_hquit. unfold t_hquit, quit. rewrite Eh, Es. reflexivity.
+    + eapply Hno. eapply tr_hc. unfold t_hc. rewrite Eh. reflexivity.
+    + destruct inv_cs0 as [H _]. specialize (H eq_refl).
+      destruct (kpc s) as [| |p st n|n|n|] eqn:Ek; try discriminate. destruct st; try discriminate.
+      * eapply Hno. eapply tr_kupd. unfold t_kupd. rewrite Ek. reflexivity.
+      * destruct (after_res p n) as [k fin] eqn:Ea.
+        eapply Hno. eapply tr_jres. unfold t_jres. rewrite Eh, Ek, Ea. reflexivity.
+    + destruct (kpc s) as [| |p st n|n|n|] eqn:Ek.
+      * eapply Hno. eapply tr_kinit. unfold t_kinit. rewrite Ek. reflexivity.
+      * eapply Hno. eapply tr_kquit. unfold t_kquit, quit. rewrite Ek, Es. reflexivity.
+      * destruct st.
+        -- eapply Hno. eapply tr_kabort. unfold t_kabort, quit. rewrite Ek, Hf, Es. reflexivity.
+        -- destruct inv_cs0 as [_ H]. cbn in H. specialize (H eq_refl). discriminate.
+        -- destruct inv_cs0 as [_ H]. cbn in H. specialize (H eq_refl). discriminate.
+      * eapply Hno. eapply tr_kpush. unfold t_kpush. rewrite Ek. reflexivity.
+      * eapply Hno. eapply tr_kchk. unfold t_kchk, quit. rewrite Ek, Es. reflexivity.
+      * eapply Hno. eapply tr_swait. unfold t_swait. rewrite Es, Eh, Ek. reflexivity.
+  - exfalso. eapply Hno. eapply tr_sdb. unfold t_sdb. rewrite Es. reflexivity.
+Qed.
+
+Definition stop_coming (s : state) : Prop := e_stop s = true \/ spc s <> Sidle.
+
+Lemma stop_coming_trans c s l s' : stop_coming s -> trans c s l s' -> stop_coming s'.
+Proof.
+  intros Hs H. unfold stop_coming in *.
+  trans_cases H; res_inv; unfold push_task, repush_task; proj_simpl;
+    try match goal with |- context [if ?b then _ else _] => destruct b end; proj_simpl;
+    try assumption; try (right; congruence).
+  all: destruct Hs as [Hs|Hs]; try (right; congruence); try (left; congruence).
+Qed.
+
+Lemma stop_coming_steps c s s' : stop_coming s -> steps c s s' -> stop_coming s'.
+Proof.
+  intros Hn H. induction H as [s | s s1 s2 Hs Hr IH]; [assumption|].
+  apply IH. apply step_trans in Hs. destruct Hs as [l Hs]. eapply stop_coming_trans; eassumption.
+Qed.
+
+(* repaired protocol: once Stop has been (or will be) called, every maximal run ends with the
+   database closed, after at most [rank s] further steps, and such a run exists *)
+Lemma stop_terminates c s :
+  cfg_ok c -> f1fix c = true -> reachable c s -> stop_coming s ->
+  (forall s', steps c s s' -> stuck c s' -> stopped s') /\
+  (forall n s', steps_n c n s s' -> n <= rank s) /\
+  (exists s', steps c s s' /\ stuck c s').
+Proof.
+  intros Hc Hf Hr Hcoming. split; [|split].
+  - intros s' Hs Hst.
+    pose proof (steps_reachable _ _ _ Hr Hs) as Hr'.
+    destruct (stop_coming_steps _ _ _ Hcoming Hs) as [He|Hne].
+    + exfalso. pose proof (reachable_inv c s' Hc Hr') as HI. destruct HI.
+      specialize (inv_estop0 He).
+      assert (Hcan : can_step c s').
+      { eapply trans_can_step. eapply tr_sclose. unfold t_sclose. rewrite inv_estop0, He. reflexivity. }
+      contradiction.
+    + apply (stuck_after_stop_is_stopped c s' Hc Hf Hr' Hne Hst).
+  - intros n s' H. apply steps_n_bound in H. lia.
+  - apply run_to_stuck.
+Qed.
+
+(* ---------------------------------------------------------------- Stop, protocol as found *)
+
+Lemma exec_reachable c cs : forall s s', reachable c s -> exec c cs s = Some s' -> reachable c s'.
+Proof.
+  induction cs as [|i cs IH]; intros s s' Hr H; cbn in H.
+  - inversion H. subst. assumption.
+  - destruct (nth_error (step c s) i) as [s1|] eqn:E; [|discriminate].
+    apply (IH s1 s'); [|assumption]. eapply reach_step; [eassumption|]. eapply nth_error_In; eassumption.
+Qed.
+
+Lemma init_reachable c blocks reqs rst stop :
+  length rst <= cap c -> reachable c (init_state (nilfix c) blocks reqs rst stop).
+Proof. intros H. apply reach_init. exists blocks, reqs, rst, stop. split; [reflexivity|assumption]. Qed.
+
+(* the state of DESIGN F1 for an arbitrary environment: an import is pending from the last run,
+   the worker takes it (quit open), Stop closes quit, the handler leaves, the worker stands at
+   the sigSuspend send *)
+Definition f1_state (blocks : nat) (reqs : list task) : state :=
+  {| hpc := Hdone; kpc := Kat PImp Ssusp 0; spc := Swait; apc := Aidle; qb := 0; tasks := [];
+     e_blocks := blocks; e_tasks := reqs; e_stop := false; restart := []; panicked := false;
+     gh := {| n_ann := 0; n_proc := 0; n_acc := 1; n_fin := 0; n_abort := 0; n_drop := 0 |} |}.
+
+Lemma f1_state_reachable c blocks reqs : cfg_ok c -> nilfix c = false -> reachable c (f1_state blocks reqs).
+Proof.
+  intros [Hc _] Hn. unfold busy_threshold in Hc.
+  set (t := {| t_kind := Imp; t_more := 0 |}).
+  set (g1 := {| n_ann := 0; n_proc := 0; n_acc := 1; n_fin := 0; n_abort := 0; n_drop := 0 |}).
+  set (s0 := {| hpc := Hsel; kpc := Kinit; spc := Sidle; apc := Aidle; qb := 0; tasks := [];
+     e_blocks := blocks; e_tasks := reqs; e_stop := true; restart := [t]; panicked := false; gh := ghost0 |}).
+  set (s1 := {| hpc := Hsel; kpc := Ksel; spc := Sidle; apc := Aidle; qb := 0; tasks := [t];
+     e_blocks := blocks; e_tasks := reqs; e_stop := true; restart := []; panicked := false; gh := g1 |}).
+  set (s2 := {| hpc := Hsel; kpc := Kat PImp Ssusp 0; spc := Sidle; apc := Aidle; qb := 0; tasks := [];
+     e_blocks := blocks; e_tasks := reqs; e_stop := true; restart := []; panicked := false; gh := g1 |}).
+  set (s3 := {| hpc := Hsel; kpc := Kat PImp Ssusp 0; spc := Swait; apc := Aidle; qb := 0; tasks := [];
+     e_blocks := blocks; e_tasks := reqs; e_stop := false; restart := []; panicked := false; gh := g1 |}).
+  assert (H0 : reachable c s0).
+  { apply reach_init. exists blocks, reqs, [t], true. rewrite Hn. split; [reflexivity|cbn; lia]. }
+  assert (H1 : reachable c s1).
+  { eapply reach_step; [exact H0|]. apply step_trans. exists Tkinit. apply tr_kinit. reflexivity. }
+  assert (H2 : reachable c s2).
+  { eapply reach_step; [exact H1|]. apply step_trans. exists Tktake. apply tr_ktake. reflexivity. }
+  assert (H3 : reachable c s3).
+  { eapply reach_step; [exact H2|]. apply step_trans. exists Ls. apply tr_sclose. reflexivity. }
+  eapply reach_step; [exact H3|]. apply step_trans. exists Thquit. apply tr_hquit. reflexivity.
+Qed.
+
+(* with the protocol as found nothing a later step does frees the two threads *)
+Lemma f1_frozen c s l s' p n :
+  f1fix c = false -> hpc s = Hdone -> kpc s = Kat p Ssusp n -> spc s = Swait ->
+  trans c s l s' -> hpc s' = Hdone /\ kpc s' = Kat p Ssusp n /\ spc s' = Swait.
+Proof.
+  intros Hf Hh Hk Hs H.
+  trans_cases H; res_inv; unfold push_task, repush_task; proj_simpl;
+    try match goal with |- context [if ?b then _ else _] => destruct b end; proj_simpl;
+    try congruence; try (repeat split; congruence).
+  all: try (rewrite Hf in *; discriminate).
+Qed.
+
+Lemma f1_frozen_steps c s s' p n :
+  f1fix c = false -> hpc s = Hdone -> kpc s = Kat p Ssusp n -> spc s = Swait ->
+  steps c s s' -> hpc s' = Hdone /\ kpc s' = Kat p Ssusp n /\ spc s' = Swait.
+Proof.
+  intros Hf Hh Hk Hs H. induction H as [s | s s1 s2 Hst Hr IH]; [auto|].
+  apply step_trans in Hst. destruct Hst as [l Hst].
+  destruct (f1_frozen c s l s1 p n Hf Hh Hk Hs Hst) as (A & B & C). apply IH; assumption.
+Qed.
+
+Lemma stop_deadlock_refuted c :
+  cfg_ok c -> f1fix c = false -> nilfix c = false ->
+  exists s, reachable c s /\ stop_requested s /\ ~ stopped s /\ stuck c s.
+Proof.
+  intros Hc Hf Hn. exists (f1_state 0 []). split; [apply f1_state_reachable; assumption|].
+  split; [cbn; discriminate|]. split; [cbn; discriminate|].
+  unfold stuck, step, step_l, t_kabort. cbn. rewrite Hf. reflexivity.
+Qed.
+
+(* for every environment (any number of further announcements and API requests) *)
+Lemma stop_deadlock_permanent c blocks reqs :
+  cfg_ok c -> f1fix c = false -> nilfix c = false ->
+  exists s, reachable c s /\ stop_requested s /\ e_blocks s = blocks /\ e_tasks s = reqs /\
+            forall s', steps c s s' -> ~ stopped s'.
+Proof.
+  intros Hc Hf Hn. exists (f1_state blocks reqs). split; [apply f1_state_reachable; assumption|].
+  split; [cbn; discriminate|]. split; [reflexivity|]. split; [reflexivity|].
+  intros s' Hs Hstop.
+  destruct (f1_frozen_steps c (f1_state blocks reqs) s' PImp 0 Hf eq_refl eq_refl eq_refl Hs) as (_ & _ & H).
+  unfold stopped in Hstop. congruence.
+Qed.
+
+(* ---------------------------------------------------------------- nil task channel *)
+
+Lemma taskchan_nil_refuted c : cfg_ok c -> nilfix c = false -> exists s, reachable c s /\ panicked s = true.
+Proof.
+  intros [Hc _] Hn. unfold busy_threshold in Hc.
+  set (t := {| t_kind := Imp; t_more := 0 |}).
+  set (s0 := {| hpc := Hsel; kpc := Kinit; spc := Sidle; apc := Aidle; qb := 0; tasks := [];
+     e_blocks := 0; e_tasks := [t]; e_stop := false; restart := []; panicked := false; gh := ghost0 |}).
+  exists (set_panicked (set_etasks s0 [])). split; [|reflexivity].
+  eapply reach_step.
+  - apply reach_init. exists 0, [t], [], false. rewrite Hn. split; [reflexivity|cbn; lia].
+  - apply step_trans. exists Ltp. apply tr_achk_panic. reflexivity.
+Qed.
+
+(* an API request made after the worker has created its channel cannot panic *)
+Lemma no_panic_after_init c s l s' : kpc s <> Kinit -> panicked s = false -> trans c s l s' -> panicked s' = false /\ kpc s' <> Kinit.
+Proof.
+  intros Hk Hp H.
+  trans_cases H; res_inv; unfold push_task, repush_task; proj_simpl;
+    try match goal with |- context [if ?b then _ else _] => destruct b end; proj_simpl;
+    try (split; congruence); try congruence.
+  all: split; try assumption; try discriminate; try congruence.
+  all: try (destruct (t_kind t); discriminate).
+Qed.
+
+Lemma no_nil_panic c s : cfg_ok c -> nilfix c = true -> reachable c s -> panicked s = false.
+Proof. intros Hc Hn Hr. destruct (reachable_inv c s Hc Hr). apply inv_nil0. assumption. Qed.
